@@ -102,11 +102,16 @@ def main():
     with open(os.path.join(dest, 'meta.json'), 'w') as f:
         json.dump(meta, f, indent=1)
     mp = os.path.join(VERIF, 'sensitivity', 'mutants.json')
-    muts = json.load(open(mp))
-    muts['seed_' + sid] = {'props': [prop],
-                           'patch': 'seeded/%s/patch.diff' % sid,
-                           'note': (meta.get('summary') or '')[:200]}
-    json.dump(muts, open(mp, 'w'), indent=1)
+    import fcntl
+    with open(mp + '.lock', 'w') as lk:     # several confirmations at once
+        fcntl.flock(lk, fcntl.LOCK_EX)
+        muts = json.load(open(mp))
+        muts['seed_' + sid] = {'props': [prop],
+                               'patch': 'seeded/%s/patch.diff' % sid,
+                               'note': (meta.get('summary') or '')[:200]}
+        with open(mp + '.tmp', 'w') as f:
+            json.dump(muts, f, indent=1)
+        os.replace(mp + '.tmp', mp)
     return 0
 
 
